@@ -10,7 +10,7 @@ the bit level by harness/s_distributed.py).
   guard (fix 64265e7) — is only taken while the station's entry at the connector is below `eps` in absolute value,
   so a station that already discharged noticeably in this step (in the sub-strategy's own V2G pass) is skipped.
 -/
-import SpiceEv.Proofs.StratDistributedBooked
+import SpiceEv.Proofs.StratDistributedLower
 set_option linter.unusedSectionVars false
 set_option linter.unusedVariables false
 namespace SpiceEv
@@ -51,6 +51,121 @@ theorem C05_distributed_final_pass_upper {B : Type} (ops : BatOps α B) (law : B
     (h : distributeSurplusOn ops env w ids = .ok (w', cmds')) :
     ∀ s ∈ w'.stations, s.currentPower ≤ s.maxPower :=
   distributeSurplusOn_station ops law env w w' ids cmds' hinv h
+
+/-- **No station above its maximum after the complete step** (repaired model, fixes/DIST2.diff) — for sub-strategies
+greedy, balanced and peak_shaving.  For any battery obeying `BatLaw`, any number of connectors of either station type,
+`number_cs`, stationary batteries (supporting, or simulated as virtual vehicles at virtual stations), V2G: after
+`Distributed.step` every station's accumulated power is at most its maximum.  (The same premise `SideOK` covers a
+peak_load_window sub-strategy: Properties/C05_PeakLoadWindow.lean.)
+Premises on the state before the step: station maxima (real and virtual) ≥ 0; connector ids distinct; no connector carries
+an entry under a station id or a virtual station's id (`LoopHyp.noEntry / noVirt`: the base step removed them), no battery
+id listed in `gc_battery` is a station id (`disj`), the virtual station of a battery belongs to the battery's connector
+(`vpar`: `__init__` builds it so).  Premise on a peak_shaving sub-strategy (`SideOK`, `True` for greedy / balanced): its
+step on a connector's virtual world without station entries, followed by DIST2, returns one connector with the same id,
+leaves every station at or below its maximum and keeps station ids and parents — the content of
+`C05_peak_shaving_commands` / `C05_peak_shaving_station` (Properties/C05_PeakShaving.lean) for the booked entries.
+The proof carries "a connector that has not been treated yet is still the connector of the beginning of the step" through
+the loop over the connectors (`LoopInv`), uses `C05_greedy_balanced_station` + "DIST2 is a no-op on a booked world" for
+greedy / balanced (`ruleStep_subOK`), and the clamp of the final surplus pass. -/
+theorem C05_distributed_station_upper {B : Type} (dops : DOps α B) (law : BatLaw dops.bat) (de : DEnv α)
+    (hsd : SideOK dops de.deps de) (hso : SideOK dops de.opps de)
+    (s s' : DState α B) (cmds : List (String × α))
+    (hgnd : (s.world.gcs.map (·.id)).Nodup)
+    (hmax : ∀ st ∈ s.world.stations, 0 ≤ st.maxPower) (hvirt : ∀ st ∈ s.init.virtualCs, 0 ≤ st.maxPower)
+    (hyp : LoopHyp (resetStations s.world) s.init (s.world.stations.map (·.id)))
+    (h : step dops de s = .ok (s', cmds)) :
+    ∀ st ∈ s'.world.stations, st.currentPower ≤ st.maxPower := by
+  unfold step at h
+  simp only [bind, Except.bind] at h
+  split at h
+  · cases h
+  · rename_i lk _
+    split at h
+    · cases h
+    · rename_i connected _
+      split at h
+      · cases h
+      · rename_i st1 hfold
+        obtain ⟨w1, ini1, c1⟩ := st1
+        simp only at h
+        split at h
+        · cases h
+        · rename_i ids _
+          split at h
+          · cases h
+          · rename_i r hsur
+            obtain ⟨w2, c2⟩ := r
+            simp only [Except.ok.injEq, Prod.mk.injEq] at h
+            obtain ⟨rfl, _⟩ := h
+            have hinv1 := stepGc_loop_fold dops law de hsd hso s.numberCs connected lk (resetStations s.world) s.init
+              (s.world.stations.map (·.id)) hyp _ hgnd _ (w1, ini1, c1)
+              (loopInv_init s.world s.init [] hmax hvirt _) hfold
+            exact distributeSurplusOn_station dops.bat law de.env w1 w2 ids c2
+              (fun st hst => (hinv1.ok st hst).2) hsur
+
+/-- the same for sub-strategies greedy / balanced (no premise on the sub-strategies) -/
+theorem C05_distributed_station_upper_rule {B : Type} (dops : DOps α B) (law : BatLaw dops.bat) (de : DEnv α)
+    (hd : de.deps.isRule) (ho : de.opps.isRule)
+    (s s' : DState α B) (cmds : List (String × α))
+    (hgnd : (s.world.gcs.map (·.id)).Nodup)
+    (hmax : ∀ st ∈ s.world.stations, 0 ≤ st.maxPower) (hvirt : ∀ st ∈ s.init.virtualCs, 0 ≤ st.maxPower)
+    (hyp : LoopHyp (resetStations s.world) s.init (s.world.stations.map (·.id)))
+    (h : step dops de s = .ok (s', cmds)) :
+    ∀ st ∈ s'.world.stations, st.currentPower ≤ st.maxPower :=
+  C05_distributed_station_upper dops law de (by simp [SideOK, hd.1, hd.2]) (by simp [SideOK, ho.1, ho.2]) s s' cmds hgnd hmax hvirt
+    hyp h
+
+/-- **Every station within ± its maximum after the complete step** (lower side with the tolerance the code itself
+uses): `−(maximum + E) ≤ power ≤ maximum` for every station, where `E ≥ 0` bounds the three tolerances (`EPS` of the
+strategy and of its two sub-strategies).  Premises as for `C06_distributed_booked` (the proof needs "station entry =
+station power": the repaired V2G guard reads the entry, so a discharge is only taken at a station whose power is below
+`EPS` in absolute value, and it moves at most the station maximum), plus — for a peak_shaving / peak_load_window
+sub-strategy only — `SideLow`: after its step and DIST2 no station is below `−(maximum + E)` (both never discharge a
+vehicle: `C05_peak_shaving_never_discharges`).  Sub-strategies greedy / balanced: `…_two_sided_rule`, no such premise. -/
+theorem C05_distributed_station_two_sided {B : Type} (E : α) (hE0 : 0 ≤ E) (dops : DOps α B) (law : BatLaw dops.bat)
+    (de : DEnv α) (hEd : de.deps.eps ≤ E) (hEo : de.opps.eps ≤ E) (hEm : de.env.eps ≤ E)
+    (hsd : SideOK dops de.deps de) (hso : SideOK dops de.opps de)
+    (hkd : SideKF dops de.deps de) (hko : SideKF dops de.opps de)
+    (hld : SideLow E dops de.deps de) (hlo : SideLow E dops de.opps de)
+    (s s' : DState α B) (cmds : List (String × α))
+    (hgnd : (s.world.gcs.map (·.id)).Nodup)
+    (hmax : ∀ st ∈ s.world.stations, 0 ≤ st.maxPower) (hvirt : ∀ st ∈ s.init.virtualCs, 0 ≤ st.maxPower)
+    (hyp : LoopHyp (resetStations s.world) s.init (s.world.stations.map (·.id)))
+    (hyp2 : LoopHyp2 s.init (s.world.stations.map (·.id)) (s.world.batteries.map (·.id)))
+    (h : step dops de s = .ok (s', cmds)) :
+    ∀ st ∈ s'.world.stations, -(st.maxPower + E) ≤ st.currentPower ∧ st.currentPower ≤ st.maxPower := by
+  have hl := step_two_sided E hE0 dops law de hEd hEo hEm hsd hso hkd hko hld hlo s s' cmds hgnd hmax hvirt hyp hyp2 h
+  have hu := C05_distributed_station_upper dops law de hsd hso s s' cmds hgnd hmax hvirt hyp h
+  exact fun st hst => ⟨hl.2.2 st hst, hu st hst⟩
+
+/-- the same for sub-strategies greedy / balanced (no premise on the sub-strategies) -/
+theorem C05_distributed_station_two_sided_rule {B : Type} (E : α) (hE0 : 0 ≤ E) (dops : DOps α B)
+    (law : BatLaw dops.bat) (de : DEnv α) (hEd : de.deps.eps ≤ E) (hEo : de.opps.eps ≤ E) (hEm : de.env.eps ≤ E)
+    (hd : de.deps.isRule) (ho : de.opps.isRule)
+    (s s' : DState α B) (cmds : List (String × α))
+    (hgnd : (s.world.gcs.map (·.id)).Nodup)
+    (hmax : ∀ st ∈ s.world.stations, 0 ≤ st.maxPower) (hvirt : ∀ st ∈ s.init.virtualCs, 0 ≤ st.maxPower)
+    (hyp : LoopHyp (resetStations s.world) s.init (s.world.stations.map (·.id)))
+    (hyp2 : LoopHyp2 s.init (s.world.stations.map (·.id)) (s.world.batteries.map (·.id)))
+    (h : step dops de s = .ok (s', cmds)) :
+    ∀ st ∈ s'.world.stations, -(st.maxPower + E) ≤ st.currentPower ∧ st.currentPower ≤ st.maxPower :=
+  C05_distributed_station_two_sided E hE0 dops law de hEd hEo hEm
+    (by simp [SideOK, hd.1, hd.2]) (by simp [SideOK, ho.1, ho.2]) (by simp [SideKF, hd.1, hd.2])
+    (by simp [SideKF, ho.1, ho.2]) (by simp [SideLow, hd.1, hd.2]) (by simp [SideLow, ho.1, ho.2])
+    s s' cmds hgnd hmax hvirt hyp hyp2 h
+
+/-- Non-vacuity of the two-sided bound on `toyState` (`E` = the common tolerance 1e-5). -/
+example : ∃ s' cmds, step (toyDOps 5) toyEnv toyState = .ok (s', cmds) ∧
+    ∀ st ∈ s'.world.stations, -(st.maxPower + 1/100000) ≤ st.currentPower ∧ st.currentPower ≤ st.maxPower := by
+  have hok : (step (toyDOps 5) toyEnv toyState).toBool = true := by decide +kernel
+  cases h : step (toyDOps 5) toyEnv toyState with
+  | error e => rw [h] at hok; cases hok
+  | ok r =>
+    obtain ⟨s', cmds⟩ := r
+    obtain ⟨hyp, hnd, hmax, hvirt⟩ := toyState_loopHyp
+    exact ⟨s', cmds, rfl, C05_distributed_station_two_sided_rule (1/100000) (by norm_num) (toyDOps 5)
+      (toyOps_law 5 (by norm_num)) toyEnv (by norm_num [toyEnv]) (by norm_num [toyEnv]) (by norm_num [toyEnv])
+      ⟨rfl, rfl⟩ ⟨rfl, rfl⟩ toyState s' cmds hnd hmax hvirt hyp toyState_loopHyp2 h⟩
 
 /-- **Every call of the final surplus pass** (`distribute_surplus_power(surplus_vehicles)`, one call of the body per
 charging-point holder `v`): either nothing changes, or exactly one booking is made — at the station `csId` the
@@ -109,6 +224,19 @@ theorem C05_distributed_final_pass_two_sided_partial {B : Type} (ops : BatOps α
     (∀ st ∈ w'.stations, -(st.maxPower + env.eps) < st.currentPower) ∧ Booked w' := by
   obtain ⟨⟨b1, _⟩, _, l1⟩ := distributeSurplusOn_sinv ops law env w w' ids cmds' ⟨⟨hb, hd⟩, hm, hl⟩ h
   exact ⟨l1, b1⟩
+
+/-- Non-vacuity of `C05_distributed_station_upper`: `toyState` meets every premise (`toyState_loopHyp`), the step
+returns, and the theorem applies. -/
+example : ∃ s' cmds, step (toyDOps 5) toyEnv toyState = .ok (s', cmds) ∧
+    ∀ st ∈ s'.world.stations, st.currentPower ≤ st.maxPower := by
+  have hok : (step (toyDOps 5) toyEnv toyState).toBool = true := by decide +kernel
+  cases h : step (toyDOps 5) toyEnv toyState with
+  | error e => rw [h] at hok; cases hok
+  | ok r =>
+    obtain ⟨s', cmds⟩ := r
+    obtain ⟨hyp, hnd, hmax, hvirt⟩ := toyState_loopHyp
+    exact ⟨s', cmds, rfl, C05_distributed_station_upper_rule (toyDOps 5) (toyOps_law 5 (by norm_num)) toyEnv ⟨rfl, rfl⟩ ⟨rfl, rfl⟩
+      toyState s' cmds hnd hmax hvirt hyp h⟩
 
 /-- Non-vacuity: after the step on `toyState` both 11 kW stations carry exactly 11 kW. -/
 example : (match step (toyDOps 5) toyEnv toyState with
